@@ -187,6 +187,16 @@ Theorem C17_multi_skips_silent_member : forall s m r n,
   layer_get s n (hd [] (flatten (new_multi (m :: r)))) = layer_get s n (hd [] (flatten (new_multi r))).
 Proof. exact multi_skips_silent_member. Qed.
 
+(* linked contexts, read-level corollary of C17_linked_append: the linked context's WHOLE chain (ancestors included:
+   seed C17_8) is asked first; only when it is silent everywhere is the own parent chain asked *)
+Theorem C17_linked_read : forall s par l n,
+  get_data s (new_linked par l) n
+  = match get_data s l n with
+    | Some v => Some v
+    | None => match par with Some p => get_data s p n | None => None end
+    end.
+Proof. exact linked_read. Qed.
+
 (* the premise of C17_child_shadow holds for every context of every reachable state *)
 Theorem C17_history_good : forall ops,
   Forall (good (length (st (run_state init_state ops)))) (env (run_state init_state ops)).
@@ -211,6 +221,7 @@ Proof. vm_compute. repeat split. Qed.
 
 Print Assumptions C17_child_transparent.
 Print Assumptions C17_child_shadow.
+Print Assumptions C17_linked_read.
 Print Assumptions C17_multi_single.
 Print Assumptions C17_multi_own_layers_first.
 Print Assumptions C17_multi_skips_silent_member.
